@@ -31,6 +31,7 @@ var registry = []*HarnessSpec{
 	{Prop: "C20", Name: "zzH08b", Pkg: pkgCorerad, Tier: "quick", Bounds: "signalTask.Run for SIGINT / SIGTERM / SIGHUP with a cancel function that reads the recorded decision"},
 	{Prop: "C20", Name: "zzH20a", Pkg: pkgCorerad, Tier: "quick", Params: map[string]int{"interfaces": 3}, Bounds: "3 interfaces, each advertise / monitor / neither; debug address set or empty"},
 	{Prop: "C20", Name: "zzH20b", Pkg: pkgCorerad, Tier: "quick", Unwind: 64, Bounds: "0..40 or unbounded *net.OpError results followed by ErrServerClosed / another error / cancellation"},
+	{Prop: "C20", Name: "zzH20d", Pkg: pkgCorerad, Tier: "quick", Explore: true, Sched: 64, Race: true, Bounds: "signalTask.Run for SIGINT / SIGTERM / SIGHUP with one concurrent reader of the decision; lock discipline on terminator.term decided on every path and schedule; native validation under the Go race detector"},
 	{Prop: "C20", Name: "zzH20c", Pkg: pkgCorerad, Tier: "quick", Explore: true, NoNative: true, Sched: 4000, Params: map[string]int{"tasks": 2, "tasks@thorough": 3}, Bounds: "2 (3) stub tasks each with one of 5 behaviours; SIGINT / SIGTERM / SIGHUP / no signal delivered once everything is blocked; schedules explored up to the budget"},
 	{Prop: "C07", Name: "zzH09b", Pkg: pkgCorerad, Tier: "quick", NoNative: true, Bounds: "Listen + handle over a scripted socket: a valid RS from any IPv6 source or ::, with or without the zone the socket layer attaches"},
 	{Prop: "C07", Name: "zzH06", Pkg: pkgCorerad, Tier: "quick", MonoTime: true, NoNative: true, Params: map[string]int{"events": 2, "events@thorough": 3}, Bounds: "scheduler: 2 (3) requests (all-nodes or arbitrary unicast sources, possibly repeated) at arbitrary instants: one task per solicitation, delay in [0,500ms), each closure sends to its own source"},
